@@ -13,7 +13,7 @@ TEXT = {
    text="Generated-input search over candidate answers an adversarial server can assemble (0-3 operators over every field and audit-path entry, splices, extra entries carrying the true hash of a node the verifier must compute itself, prefix-sharing digests and near misses of the base event, honest non-member answers), verified exactly as a client does against authentic snapshots and, in a second unit, through the real HTTP client's one-call MembershipAutoVerify against a lying server; any accepted false claim is a violation. Exploration of a grammar, not a cryptographic proof.",
    note="Adversary limited to the operator grammar; SHA-256 collisions out of scope; a verifier panic counts as 'not accepted' here (C12 owns it).", ref="§5 C02"),
  "C03": dict(tech="rapid log histories; exhaustive (i,j) pairs; substitution / fork / alteration families with rejection oracle",
-   text="For every generated log and every pair i<=j (all pairs up to the bound) the incremental proof must verify against snapshots i and j and must be rejected under substituted digests (other versions, forked logs sharing any prefix), altered versions and every single audit-path alteration. Exploration.",
+   text="For every generated log and every pair i<=j (all pairs up to the bound) the incremental proof must verify against snapshots i and j and must be rejected under substituted digests (other versions, forked logs sharing any prefix), altered versions and every single audit-path alteration; proofs are held across all later queries and re-verified, and several auditors query at once. Exploration.",
    note="Forked logs' digests come from the independent reference history tree; panics count as rejection (C12).", ref="§5 C03"),
  "C04": dict(tech="differential testing against an independent reference implementation of both Merkle trees; metamorphic partition/restart/cache relations",
    text="Every snapshot returned for generated (sequence x partition x restart points x cache capacity) is compared byte-for-byte with an independent re-implementation of the published construction (crypto/sha256 only); same sequence under another partition must give the same digests. Exploration; an independent oracle is what catches changes applied consistently to prover and verifier.",
@@ -22,13 +22,13 @@ TEXT = {
    text="Every generated hostile answer (structural malformations over genuine answers; scripted server bodies/status codes against the real client, whose results are then used the way the CLI and the agents use them; coverage-guided byte fuzzing in thorough, its corpus replayed in quick) must be decoded and verified without panic, within 5 s and 256 MB. Exploration.",
    note="The digest the client asks about is its own 32-byte value (caller precondition); hangs are detected with a 5 s bound.", ref="§5 C12"),
  "C13": dict(tech="rapid round-trip (encode/decode) with field equality and verdict-equivalence oracle",
-   text="decode(encode(x)) == x for every genuine membership/incremental answer of generated logs (incl. clamped q>current, audit-path indexes >= 256), synthetic audit paths up to 2^64-1, snapshots/batches, replicated commands/state codecs and gossip messages; decoded proofs must give the original's verdict on genuine and wrong inputs; every encoding handed out during a case is held and must be byte-identical at its end. Exploration.",
+   text="decode(encode(x)) == x for every genuine membership/incremental answer of generated logs (incl. clamped q>current, audit-path indexes >= 256), synthetic audit paths up to 2^64-1, snapshots/batches, replicated commands/state codecs and gossip messages; decoded proofs must give the original's verdict on genuine and wrong inputs; every encoding handed out during a case is held and must be byte-identical at its end; the real qed command line (client membership --verify) must print the original answer's fields and verdict. Exploration.",
    note="nil and empty byte slices are identified where the codec conflates them; msgpack/JSON libraries are trusted.", ref="§5 C13"),
  "C14": dict(tech="rapid stateful (model-based) testing of both store back-ends against a sorted-map-per-table model; executor child for RocksDB",
    text="Generated sequences of mutate/get/range/scan/last/reopen over all tables with adversarial keys are run on BPlusTreeStore (in-process) and RocksDBStore (in a child process so that an abort at close is an observation) and every observation is compared with a map model; a writer/reader pair and a SIGKILL/reopen all-or-nothing check decide batch atomicity on RocksDB for batches of 2 to 3001 mutations. Exploration.",
    note="RocksDB 7.8 (Debian build, assertions on) through the /verif/compat shim is the trusted base; bplus concurrency is not generated (no caller uses it concurrently).", ref="§5 C14"),
  "C15": dict(tech="rapid stateful (model-based) testing of the raft log store against a map model, run in an executor child",
-   text="Generated sequences of StoreLog/StoreLogs/GetLog/DeleteRange/FirstIndex/LastIndex/Set/Get/SetUint64/GetUint64/reopen with indexes anywhere in uint64 and payloads up to 64 KB are run on the real RocksDB-backed log store (consensus hook) and compared field by field with a map model, again after reopen and a clean process end. Exploration.",
+   text="Generated sequences of StoreLog/StoreLogs/GetLog/DeleteRange/FirstIndex/LastIndex/Set/Get/SetUint64/GetUint64/reopen (also with the sync option switched) with indexes anywhere in uint64 and payloads up to 64 KB are run on the real RocksDB-backed log store (consensus hook) and compared field by field with a map model, again after reopen and a clean process end. Exploration.",
    note="Stable-store values are non-empty and uint64/byte settings use separate keys (as raft does); RocksDB is trusted.", ref="§5 C15"),
  "C05": dict(tech="rapid stateful sequence-model testing at balloon and RaftNode level (restarts, SIGKILL crash points, forced snapshots) with dense-version oracle",
    text="Generated histories of single/bulk adds interleaved with restarts, crash points, snapshots (and, in the cluster tier, leadership transfers) are run on the real Balloon / RaftNode; the k-th acknowledged event must carry version k-1, bulks consecutive versions in request order, each snapshot its own event digest, and proofs CurrentVersion = accepted-1; a further unit runs 2-16 clients at once against one node and requires every acknowledgement to bind its own events and the versions to be exactly 0..N-1 once. Exploration.",
@@ -37,7 +37,7 @@ TEXT = {
    text="For each generated workload every apply x {before, after the store write} is crashed by SIGKILL through a wrapper around the real RocksDB store, the node is restarted and must reach exactly acknowledged+in-flight events, continue with reference-equal snapshots and keep every pre-crash snapshot verifiable. Exhaustive over the crash points of each generated workload; workloads are sampled. A second unit kills a node at wall-clock instants of a running stream (half of the streams start with a bulk above 1000 events) with an oracle that does not depend on where the kill landed.",
    note="SIGKILL keeps the page cache (no torn writes); crash inside RocksDB's own write is not placeable; single node.", ref="§5 C07"),
  "C08": dict(tech="rapid histories x stop points; metamorphic oracle (restarted node == reference model of the uninterrupted run) + process-exit observation in a child",
-   text="Generated workloads are run with clean stop/restart at every / one / some stop points on RocksDB (child processes: Close must return, exit status 0, no abort) and on bplus (re-constructed Balloon); all later snapshots must equal the reference of the uninterrupted sequence and proofs of pre-stop events verify against pre-stop snapshots; a cluster unit stops a follower again while it is still applying the backlog it missed (Close must return within 60 s, afterwards the replica must equal the others). Exploration.",
+   text="Generated workloads are run with clean stop/restart at every / one / some stop points on RocksDB (child processes: Close must return, exit status 0, no abort) and on bplus (re-constructed Balloon); all later snapshots must equal the reference of the uninterrupted sequence and proofs of pre-stop events verify against pre-stop snapshots; a cluster unit stops a follower again while it is still applying the backlog it missed (Close must return within 60 s, afterwards the replica must equal the others); a complete server.Server is stopped while read-only clients (metrics scrapes, queries, management listing) keep calling, restarted and held to the same oracle. Exploration.",
    note="Debian librocksdb has assertions on: a leaked iterator at close aborts the child, which is how 'releases every storage resource' is observed. Shutdown liveness = 30 s bound.", ref="§5 C08"),
  "C10": dict(tech="schedule-controlled concurrency testing: rapid-generated query sets against an apply parked by a gating store wrapper, plus race-detector stress of the public API",
    text="The harness owns the schedule the property singles out: an insertion is parked between computing and persisting (gating wrapper around the real RocksDB store, no repo hook), generated queries start concurrently, the write is released, and every answer must be an error or a proof verifying against the snapshots issued for the versions it names; never a panic, hang or mixed state. A second tier runs concurrent adders/queriers in a -race build. Exploration of that interleaving and its neighbours, not of all schedules.",
